@@ -24,23 +24,24 @@ open MakoModel.Target MakoModel.Codegen
 
 mutual
 /-- expressions: everything the generator writes into templates, except `caller.x()` inside a `<%call expr>`
-    (`inCE`) and `loop` outside a loop of the same scope (`inLoop`) -/
-def GoodE (inLoop inCE : Bool) : Expr → Bool
+    (`inCE`), `caller.x()` where `caller` is not the callable's own (`cv = false`: a def written inside a `<%call>`
+    whose enclosing scope already knows the name `caller`), and `loop` outside a loop of the same scope (`inLoop`) -/
+def GoodE (inLoop inCE cv : Bool) : Expr → Bool
   | .lit _ => true
   | .var _ => true
   | .boom => true
   | .probe => true
   | .loopIndex => inLoop
-  | .cat a b => GoodE inLoop inCE a && GoodE inLoop inCE b
-  | .filt _ e => GoodE inLoop inCE e
-  | .call f args => f != 0 && GoodArgs inLoop inCE args
-  | .capture f args => f != 0 && GoodArgs inLoop inCE args
-  | .callerCall _ args => !inCE && GoodArgs inLoop inCE args
+  | .cat a b => GoodE inLoop inCE cv a && GoodE inLoop inCE cv b
+  | .filt _ e => GoodE inLoop inCE cv e
+  | .call f args => f != 0 && GoodArgs inLoop inCE cv args
+  | .capture f args => f != 0 && GoodArgs inLoop inCE cv args
+  | .callerCall _ args => cv && !inCE && GoodArgs inLoop inCE cv args
   | .mbuf => false
   | .includeFile _ => false
-def GoodArgs (inLoop inCE : Bool) : List Expr → Bool
+def GoodArgs (inLoop inCE cv : Bool) : List Expr → Bool
   | [] => true
-  | e :: es => GoodE inLoop inCE e && GoodArgs inLoop inCE es
+  | e :: es => GoodE inLoop inCE cv e && GoodArgs inLoop inCE cv es
 end
 
 /-- the scope of the content of a top-level def (`renderCallable false`) -/
@@ -55,40 +56,6 @@ def mainScope (t : Tmpl) : Scope := { top := true, cd := usesCaller t, bind := f
 
 /-- does the `% for` get a loop context? -/
 def forCtx (items : List Expr) (body : Tmpl) : Bool := argsMentionLoop items || mentionsLoopDeep body
-
-/-- names of the closures a scope declares -/
-def declNames (t : Tmpl) : List Name := (Spec.declared false 0 t).map (·.1)
-
-def nodupB : List Name → Bool
-  | [] => true
-  | a :: l => !l.contains a && nodupB l
-
-/-- the guarded fragment, for the nodes of a scope `sc`.  `inLoop`: a loop context of this callable is active;
-    `buf`: the callable buffers its content (then `<% return %>` would lose it). -/
-def Good (sc : Scope) (inLoop buf : Bool) : Tmpl → Bool
-  | .nil => true
-  | .text _ => true
-  | .textTag _ _ => true
-  | .brk => true
-  | .cont => true
-  | .ret => !buf
-  | .seq a b => Good sc inLoop buf a && Good sc inLoop buf b
-  | .expr e _ => GoodE inLoop false e
-  | .ite c t e => GoodE inLoop false c && Good sc inLoop buf t && Good sc inLoop buf e
-  | .for_ _ items body =>
-    GoodArgs inLoop false items && (!forCtx items body || sc.loops) && Good sc (inLoop || forCtx items body) buf body
-  | .while_ _ b => Good sc inLoop buf b
-  | .try_ b h => Good sc inLoop buf b && Good sc inLoop buf h
-  | .def_ name _ fl body =>
-    name != 0 && !fl.cached && nodupB (declNames body) &&
-      (if sc.top then Good (defScope body) false (Spec.isBuffering fl) body
-       else !sc.bind && Good (subScope sc false body) false (Spec.isBuffering fl) body)
-  | .block _ _ _ _ => false
-  | .include_ _ => false
-  | .call e _ body => GoodE inLoop true e && Good (bodyScope sc body) false false body
-
-/-- a whole template -/
-def GoodTop (t : Tmpl) : Bool := Good (mainScope t) false false t && nodupB (declNames t)
 
 /-- no `<%def>` / `<%block>` anywhere below (through control lines and `<%call>` bodies) -/
 def NoDefs : Tmpl → Bool
@@ -112,6 +79,59 @@ def NoRet : Tmpl → Bool
   | .try_ b h => NoRet b && NoRet h
   | _ => true
 
+/-- names of the closures a scope declares -/
+def declNames (t : Tmpl) : List Name := (Spec.declared false 0 t).map (·.1)
+
+def nodupB : List Name → Bool
+  | [] => true
+  | a :: l => !l.contains a && nodupB l
+
+mutual
+/-- the guarded fragment, for the nodes of a scope `sc`.  `inLoop`: a loop context of this callable is active;
+    `buf`: the callable buffers its content (then `<% return %>` would lose it); `cv`: `caller` denotes the
+    callable's own caller; `cb`: the nodes are the direct content of a `<%call>` (its `<%def>`s are written into
+    `ccall` and checked by `GoodCB`). -/
+def Good (sc : Scope) (inLoop buf cv cb : Bool) : Tmpl → Bool
+  | .nil => true
+  | .text _ => true
+  | .textTag _ _ => true
+  | .brk => true
+  | .cont => true
+  | .ret => !buf
+  | .seq a b => Good sc inLoop buf cv cb a && Good sc inLoop buf cv cb b
+  | .expr e _ => GoodE inLoop false cv e
+  | .ite c t e => GoodE inLoop false cv c && Good sc inLoop buf cv false t && Good sc inLoop buf cv false e
+  | .for_ _ items body =>
+    GoodArgs inLoop false cv items && (!forCtx items body || sc.loops) &&
+      Good sc (inLoop || forCtx items body) buf cv false body
+  | .while_ _ b => Good sc inLoop buf cv false b
+  | .try_ b h => Good sc inLoop buf cv false b && Good sc inLoop buf cv false h
+  | .def_ name _ fl body =>
+    cb || (name != 0 && !fl.cached && nodupB (declNames body) &&
+      (if sc.top then Good (defScope body) false (Spec.isBuffering fl) true false body
+       else Good (subScope sc sc.bind body) false (Spec.isBuffering fl) (!effLex sc sc.bind body) false body))
+  | .block _ _ _ _ => false
+  | .include_ _ => false
+  | .call e _ body =>
+    GoodE inLoop true cv e && GoodCB { sc with top := false } body && Good (bodyScope sc body) false false true true body
+/-- the `<%def>`s written into the `ccall` of a `<%call>` that sits in scope `sc`: direct children only -/
+def GoodCB (sc : Scope) : Tmpl → Bool
+  | .seq a b => GoodCB sc a && GoodCB sc b
+  | .def_ name _ fl body =>
+    name != 0 && !fl.cached && nodupB (declNames body) &&
+      Good (subScope sc true body) false (Spec.isBuffering fl) (!effLex sc true body) false body
+  | .ite _ t e => NoDefs t && NoDefs e
+  | .for_ _ _ b => NoDefs b
+  | .while_ _ b => NoDefs b
+  | .try_ b h => NoDefs b && NoDefs h
+  | .call _ _ b => NoDefs b
+  | .block _ _ _ _ => false
+  | _ => true
+end
+
+/-- a whole template -/
+def GoodTop (t : Tmpl) : Bool := Good (mainScope t) false false true false t && nodupB (declNames t)
+
 /-- statements that do nothing -/
 def isSkips : Stmt → Bool
   | .skip => true
@@ -125,28 +145,37 @@ def OptRel {α β : Type} (R : α → β → Prop) : Option α → Option β →
   | some a, some b => R a b
   | _, _ => False
 
+/-- the code of the `body()` of a `<%call>` written in scope `sc` -/
+def bodyFun (sc : Scope) (bargs : List Name) (body : Tmpl) : Fun :=
+  ⟨bargs, ⟨ownsLoops sc body, false, true⟩,
+    .seq (.seq (bodyHoist (bodyScope sc body) body) (.prim .getWriter))
+         (.seq (stmts (bodyScope sc body) body) (.ret emptyStr))⟩
+
 /-- the target function `f` is the code generated for the specification's callable `sf` -/
 inductive FunRel : Fun → Spec.SFun → Prop
-  /-- `render_body` (`s.top`) or a top-level def: one of the `write_def_finish` shapes -/
-  | def_ (s : Scope) (ps : List Name) (fl : DefFlags) (body : Tmpl) (own : Bool) (mod : Nat) (kind : Spec.Kind) :
-      ((kind = .def_ ∧ s.top = false ∧ s.bind = false) ∨ (kind = .main ∧ s.top = true)) → fl.cached = false →
-      nodupB (declNames body) = true → Good s false (Spec.isBuffering fl) body = true →
-      FunRel ⟨ps, ⟨own, fl.deco, false⟩, defShape fl (.seq (hoist s body) (.prim .getWriter)) (stmts s body)⟩
+  /-- `render_body` (`s.top`) or a def (top-level, nested in a def, or written into a `ccall`): one of the
+      `write_def_finish` shapes.  `lex`: the def's `caller` is the parameter of an enclosing `ccall(caller)`; its
+      content then does not use `caller` (`cv = !lex`). -/
+  | def_ (s : Scope) (ps : List Name) (fl : DefFlags) (body : Tmpl) (own lex : Bool) (mod : Nat) (kind : Spec.Kind) :
+      ((kind = .def_ ∧ s.top = false) ∨ (kind = .main ∧ s.top = true ∧ lex = false)) → fl.cached = false →
+      nodupB (declNames body) = true → Good s false (Spec.isBuffering fl) (!lex) false body = true →
+      FunRel ⟨ps, ⟨own, fl.deco, lex⟩, defShape fl (.seq (hoist s body) (.prim .getWriter)) (stmts s body)⟩
              ⟨ps, fl, body, kind, mod⟩
   /-- `body()` of a `<%call>`: no frame of its own, `caller` is the closure variable of `ccall(caller)` -/
-  | body (s : Scope) (args : List Name) (body : Tmpl) (own : Bool) (mod : Nat) :
-      s.top = false → s.bind = true → Good s false false body = true →
-      FunRel ⟨args, ⟨own, false, true⟩,
-              .seq (.seq (bodyHoist s body) (.prim .getWriter)) (.seq (stmts s body) (.ret emptyStr))⟩
-             ⟨args, noFlags, body, .body, mod⟩
+  | body (sc : Scope) (args : List Name) (body : Tmpl) (mod : Nat) :
+      Good (bodyScope sc body) false false true true body = true → GoodCB { sc with top := false } body = true →
+      FunRel (bodyFun sc args body) ⟨args, noFlags, body, .body, mod⟩
 
 /-- closures reachable by name: generated code of the same callable, same module, never a `body()` -/
 def CloRel (clo : Clo) (sf : Spec.SFun) : Prop := FunRel clo.fn sf ∧ clo.mod = sf.mod ∧ sf.kind ≠ .body
 
-/-- one `ccall`: name 0 is `body()`, the other names are its nested defs -/
+/-- one `ccall`, as a guarded `<%call>` written in some scope `sc` builds it: the `<%def>`s of its content, then
+    `body` (name 0); on the specification side `body` first -/
 def LayerRel (layer : Layer) (sl : Spec.SLayer) : Prop :=
-  ∀ x, OptRel (fun fn sf => FunRel fn sf ∧ sf.mod = layer.mod ∧ (if x = 0 then sf.kind = .body else sf.kind = .def_))
-    (lookup x layer.funs) (lookup x sl)
+  ∃ (sc : Scope) (bargs : List Name) (body : Tmpl),
+    layer.funs = collectDefs (callDefs { sc with top := false } body) ++ [(0, bodyFun sc bargs body)] ∧
+    sl = (0, ⟨bargs, noFlags, body, .body, layer.mod⟩) :: Spec.callDefsOf layer.mod body ∧
+    Good (bodyScope sc body) false false true true body = true ∧ GoodCB { sc with top := false } body = true
 
 /-- `caller` namespaces: layer by layer -/
 inductive NSRel : NS → Spec.SNS → Prop
@@ -160,14 +189,14 @@ def ClosRel (funs : List (Name × Clo)) (defs : List (Name × Spec.SFun)) : Prop
 def callerView (l : Loc) (σ : St) : Option NS := if l.useLex then some l.lexc else σ.frames.head?
 
 /-- the runtime state and the arguments of the specification renderer describe the same situation -/
-structure RelC (l : Loc) (σ : St) (E : Spec.Env) : Prop where
+structure RelC (cv : Bool) (l : Loc) (σ : St) (E : Spec.Env) : Prop where
   vars : ∀ x, lookup x l.vars = lookup x E.vars
   loops : ∃ base, σ.loops.map (·.index) = E.loops ++ base
   nb : σ.bufs.length = E.nb
   nf : σ.frames.length = E.nf
   funs : ClosRel l.funs E.defs
   mod : l.mod = E.mod
-  cview : ∃ ns, callerView l σ = some ns ∧ NSRel ns E.caller
+  cview : cv = true → ∃ ns, callerView l σ = some ns ∧ NSRel ns E.caller
   lcaller : NSRel l.caller E.caller
 
 /-- the part of `RelC` a *callee* depends on (it brings its own `caller`, loop stack and module) -/
@@ -177,7 +206,7 @@ structure RelW (l : Loc) (σ : St) (E : Spec.Env) : Prop where
   nf : σ.frames.length = E.nf
   funs : ClosRel l.funs E.defs
 
-theorem RelC.toW {l : Loc} {σ : St} {E : Spec.Env} (h : RelC l σ E) : RelW l σ E := ⟨h.vars, h.nb, h.nf, h.funs⟩
+theorem RelC.toW {cv : Bool} {l : Loc} {σ : St} {E : Spec.Env} (h : RelC cv l σ E) : RelW l σ E := ⟨h.vars, h.nb, h.nf, h.funs⟩
 
 /-- what an expression leaves as it was -/
 def Post (σ σ' : St) : Prop := σ'.frames = σ.frames ∧ σ'.loops = σ.loops ∧ σ'.next = σ.next
@@ -352,105 +381,69 @@ theorem nodefs_facts : ∀ t : Tmpl, NoDefs t = true → NoDefsFacts t := by
       fun sc => by simp [deepDefs, isSkips], fun sc => by simp [bodyHoist, isSkips],
       fun top mod => by simp [Spec.declared], fun mod => by simp [Spec.callDefsOf]⟩
 
-/-- in a scope that is not the template body the guard admits no `<%def>` at all -/
-theorem good_nodefs : ∀ (t : Tmpl) (sc : Scope) (il bf : Bool), sc.top = false → sc.bind = true →
-    Good sc il bf t = true → NoDefs t = true := by
-  intro t
-  induction t with
-  | seq a b iha ihb =>
-    intro sc il bf ht hbd h
-    simp only [Good, Bool.and_eq_true] at h
-    simp [NoDefs, iha sc il bf ht hbd h.1, ihb sc il bf ht hbd h.2]
-  | ite c a b iha ihb =>
-    intro sc il bf ht hbd h
-    simp only [Good, Bool.and_eq_true] at h
-    simp [NoDefs, iha sc il bf ht hbd h.1.2, ihb sc il bf ht hbd h.2]
-  | try_ a b iha ihb =>
-    intro sc il bf ht hbd h
-    simp only [Good, Bool.and_eq_true] at h
-    simp [NoDefs, iha sc il bf ht hbd h.1, ihb sc il bf ht hbd h.2]
-  | for_ x items b ih =>
-    intro sc il bf ht hbd h
-    simp only [Good, Bool.and_eq_true] at h
-    simp [NoDefs, ih sc _ bf ht hbd h.2]
-  | while_ m b ih =>
-    intro sc il bf ht hbd h
-    simp only [Good] at h
-    simp [NoDefs, ih sc il bf ht hbd h]
-  | call e args b ih =>
-    intro sc il bf ht hbd h
-    simp only [Good, Bool.and_eq_true] at h
-    simp [NoDefs, ih (bodyScope sc b) false false rfl rfl h.2]
-  | def_ name ps fl b _ =>
-    intro sc il bf ht hbd h
-    simp [Good, ht, hbd] at h
-  | block _ _ _ _ _ => intro sc il bf _ _ h; simp [Good] at h
-  | include_ _ => intro sc il bf _ _ h; simp [Good] at h
-  | _ => intro _ _ _ _ _ _; rfl
-
 /-- the template body itself: its `<%def>`s are module-level callables, its own prologue is empty -/
-theorem good_top_hoist : ∀ (t : Tmpl) (sc : Scope) (il bf : Bool), sc.top = true → Good sc il bf t = true →
+theorem good_top_hoist : ∀ (t : Tmpl) (sc : Scope) (il bf cv : Bool), sc.top = true → Good sc il bf cv false t = true →
     isSkips (hoist sc t) = true ∧ Spec.declared true 0 t = [] ∧ ∀ mod, Spec.declared true mod t = [] := by
   intro t
   induction t with
   | seq a b iha ihb =>
-    intro sc il bf ht h
+    intro sc il bf cv ht h
     simp only [Good, Bool.and_eq_true] at h
-    obtain ⟨a1, a2, a3⟩ := iha sc il bf ht h.1
-    obtain ⟨b1, b2, b3⟩ := ihb sc il bf ht h.2
+    obtain ⟨a1, a2, a3⟩ := iha sc il bf cv ht h.1
+    obtain ⟨b1, b2, b3⟩ := ihb sc il bf cv ht h.2
     exact ⟨by simp [hoist, isSkips, a1, b1], by simp [Spec.declared, a2, b2], fun m => by simp [Spec.declared, a3, b3]⟩
   | ite c a b iha ihb =>
-    intro sc il bf ht h
+    intro sc il bf cv ht h
     simp only [Good, Bool.and_eq_true] at h
-    obtain ⟨a1, a2, a3⟩ := iha sc il bf ht h.1.2
-    obtain ⟨b1, b2, b3⟩ := ihb sc il bf ht h.2
+    obtain ⟨a1, a2, a3⟩ := iha sc il bf cv ht h.1.2
+    obtain ⟨b1, b2, b3⟩ := ihb sc il bf cv ht h.2
     exact ⟨by simp [hoist, isSkips, a1, b1], by simp [Spec.declared, a2, b2], fun m => by simp [Spec.declared, a3, b3]⟩
   | try_ a b iha ihb =>
-    intro sc il bf ht h
+    intro sc il bf cv ht h
     simp only [Good, Bool.and_eq_true] at h
-    obtain ⟨a1, a2, a3⟩ := iha sc il bf ht h.1
-    obtain ⟨b1, b2, b3⟩ := ihb sc il bf ht h.2
+    obtain ⟨a1, a2, a3⟩ := iha sc il bf cv ht h.1
+    obtain ⟨b1, b2, b3⟩ := ihb sc il bf cv ht h.2
     exact ⟨by simp [hoist, isSkips, a1, b1], by simp [Spec.declared, a2, b2], fun m => by simp [Spec.declared, a3, b3]⟩
   | for_ x items b ih =>
-    intro sc il bf ht h
+    intro sc il bf cv ht h
     simp only [Good, Bool.and_eq_true] at h
-    obtain ⟨b1, b2, b3⟩ := ih sc _ bf ht h.2
+    obtain ⟨b1, b2, b3⟩ := ih sc _ bf cv ht h.2
     exact ⟨by simp [hoist, b1], by simp [Spec.declared, b2], fun m => by simp [Spec.declared, b3]⟩
   | while_ m b ih =>
-    intro sc il bf ht h
+    intro sc il bf cv ht h
     simp only [Good] at h
-    obtain ⟨b1, b2, b3⟩ := ih sc il bf ht h
+    obtain ⟨b1, b2, b3⟩ := ih sc il bf cv ht h
     exact ⟨by simp [hoist, b1], by simp [Spec.declared, b2], fun m => by simp [Spec.declared, b3]⟩
   | def_ name ps fl b _ =>
-    intro sc il bf ht h
+    intro sc il bf cv ht h
     exact ⟨by simp [hoist, ht, isSkips], by simp [Spec.declared], fun m => by simp [Spec.declared]⟩
-  | block _ _ _ _ _ => intro sc il bf _ h; simp [Good] at h
-  | _ => intro _ _ _ _ _; exact ⟨by simp [hoist, isSkips], by simp [Spec.declared], fun m => by simp [Spec.declared]⟩
+  | block _ _ _ _ _ => intro sc il bf cv _ h; simp [Good] at h
+  | _ => intro _ _ _ _ _ _; exact ⟨by simp [hoist, isSkips], by simp [Spec.declared], fun m => by simp [Spec.declared]⟩
 
-theorem good_noret : ∀ (t : Tmpl) (sc : Scope) (il : Bool), Good sc il true t = true → NoRet t = true := by
+theorem good_noret : ∀ (t : Tmpl) (sc : Scope) (il cv cb : Bool), Good sc il true cv cb t = true → NoRet t = true := by
   intro t
   induction t with
   | seq a b iha ihb =>
-    intro sc il h
+    intro sc il cv cb h
     simp only [Good, Bool.and_eq_true] at h
-    simp [NoRet, iha sc il h.1, ihb sc il h.2]
+    simp [NoRet, iha sc il cv _ h.1, ihb sc il cv _ h.2]
   | ite c a b iha ihb =>
-    intro sc il h
+    intro sc il cv cb h
     simp only [Good, Bool.and_eq_true] at h
-    simp [NoRet, iha sc il h.1.2, ihb sc il h.2]
+    simp [NoRet, iha sc il cv _ h.1.2, ihb sc il cv _ h.2]
   | try_ a b iha ihb =>
-    intro sc il h
+    intro sc il cv cb h
     simp only [Good, Bool.and_eq_true] at h
-    simp [NoRet, iha sc il h.1, ihb sc il h.2]
+    simp [NoRet, iha sc il cv _ h.1, ihb sc il cv _ h.2]
   | for_ x items b ih =>
-    intro sc il h
+    intro sc il cv cb h
     simp only [Good, Bool.and_eq_true] at h
-    simp [NoRet, ih sc _ h.2]
+    simp [NoRet, ih sc _ cv _ h.2]
   | while_ m b ih =>
-    intro sc il h
+    intro sc il cv cb h
     simp only [Good] at h
-    simp [NoRet, ih sc il h]
-  | ret => intro sc il h; simp [Good] at h
-  | _ => intro _ _ _; rfl
+    simp [NoRet, ih sc il cv _ h]
+  | ret => intro sc il cv cb h; simp [Good] at h
+  | _ => intro _ _ _ _ _; rfl
 
 end MakoModel.Codegen.Calls
